@@ -39,6 +39,7 @@ def gen(rng, flavour):
     cfg = {'bt': BT, 'size': rng.randint(1, 5), 'conc': rng.randint(1, 3),
            'ret': rng.choice([0, 0, BT / 2, 8 * BT]),
            'bdur': rng.choice([0, BT / 4, BT, 4 * BT]), 'idur': rng.choice([0, 0, BT / 8]),
+           'tail': rng.choice([0, 0, BT / 2, 2 * BT]) if flavour in ('c10', 'c04') else 0,
            'order': rng.choice(['fwd', 'rev', 'shuf']),
            'form': rng.choice(['class', 'class', 'deco', 'deco_opts']),
            'explicit_key': rng.choice([True, True, 'prefixed', False])}
@@ -63,7 +64,7 @@ def gen(rng, flavour):
     elif flavour == 'c09':
         behs = ['val', 'val', 'val', 'exc', 'raise'] if rng.random() < 0.5 else ['val', 'val', 'exc']
     elif flavour == 'c11':
-        behs = ['val', 'val', 'exc']
+        behs = ['val', 'val', 'exc', 'raise']
     else:
         behs = ['val']
     delta = rng.choice([0, 0, 0, U / 64, -U / 64])
@@ -147,6 +148,8 @@ class BatcherHarness:
                             uid[0] += 1
                             emit('yield', b, k, 'val', uid[0])
                             yield k, (k, b, a.cid, uid[0])
+                    if cfg.get('tail'):
+                        await aio.sleep(cfg['tail'])      # work after the last result (a commit, say)
                 finally:
                     running[0] -= 1
                     emit('bend', b)
